@@ -3,7 +3,7 @@
    correspondence run (reference oracle on the implementation side). *)
 From Coq Require Import ZArith List Bool Lia.
 From MV Require Import Ast Eval Scalar Machine.
-From MV.Proofs Require Import Arith Logic Prim View OpsLocal Guards Drops DrainIt IntoIt.
+From MV.Proofs Require Import Arith Logic Prim View OpsLocal Guards Drops DrainIt IntoIt FilterIt.
 Import ListNotations.
 Open Scope Z_scope.
 
@@ -98,3 +98,38 @@ Theorem C10_into_iter_as_slice_exact :
 Proof. use into_as_slice_spec. Qed.
 
 Print Assumptions C10_into_iter_any_interleaving.
+
+(* ---- DrainFilter ---- *)
+(* next(), from ANY point of the traversal, for ANY predicate script (true / false / panic): it
+   yields exactly the next element the predicate accepts, keeps (compacted, in order) the ones it
+   rejected on the way, stops with `panicked` set when the predicate panics; `fnext_spec` is the
+   list-level description: (newly kept, result, how far pos advances, rest of the script) *)
+Theorem C10_drain_filter_next_follows_the_script :
+  forall cfg, cfg_ok cfg ->
+  forall rest fuel f s b orig kept,
+  finv cfg s f b orig kept -> skipn (Z.to_nat (f_pos f)) orig = rest -> (List.length rest < fuel)%nat ->
+  let '(k, r, n, sc') := fnext_spec rest (f_pred f) in
+  exists s' f',
+    filter_next cfg fuel f s = (Val (to_fstep r, f'), s') /\
+    finv cfg s' f' b orig (kept ++ k) /\ fframe s s' b /\
+    f_vec f' = f_vec f /\ f_old f' = f_old f /\
+    f_pos f' = f_pos f + Z.of_nat n /\ f_pred f' = sc' /\ (r = RPanic -> f_panicked f' = true) /\
+    match r with RYield e => nth_error orig (Z.to_nat (f_pos f') - 1) = Some e | _ => True end.
+Proof. exact filter_next_spec. Qed.
+
+(* creation: the length is cut to 0 before the iterator exists, and stays 0 while it lives -- a
+   forgotten DrainFilter leaves an EMPTY vector (a leak, nothing else) *)
+Theorem C10_drain_filter_creation :
+  forall cfg, cfg_ok cfg -> forall s v b bl sc,
+  vec_at s v b bl -> block_ok cfg bl -> init_upto (slots bl) (h_len bl) ->
+  (forall e, In e (velems bl) -> ledger s e = Live) ->
+  exists s' f, make_filter v sc s = (Val f, s') /\ finv cfg s' f b (velems bl) [] /\ fframe s s' b /\
+               f_vec f = v /\ f_pos f = 0 /\ f_new f = 0 /\ f_old f = h_len bl /\ f_pred f = sc /\ f_panicked f = false.
+Proof. exact make_filter_spec. Qed.
+
+Theorem C10_drain_filter_vector_is_empty_while_the_iterator_lives :
+  forall cfg s f b orig kept, finv cfg s f b orig kept ->
+  exists bl, vec_at s (f_vec f) b bl /\ block_ok cfg bl /\ velems bl = [].
+Proof. exact finv_vector_is_empty. Qed.
+
+Print Assumptions C10_drain_filter_next_follows_the_script.
